@@ -78,9 +78,12 @@ def menu(ctx):
     for ns in ("a", ["a", "zz"], "bb.i"):
         for flag in (True, False):
             ops.append(("set_output", ns, flag))
-    for name in ("bb", "nb", "a"):
+    for name in ("bb", "nb", "a", "9b"):
         for conn in (None, {"i": "a", "o": "b"}, {"i": "zz"}, {"q": "a"}, {"o": "a", "i": "b"}, {"i": "bb.o"}):
             ops.append(("add_blackbox", name, conn))
+    for name in ("nb", "bb"):
+        ops.append(("add_blackbox_dup_pin", name, None))
+        ops.append(("add_blackbox_dup_pin", name, {"i": "a"}))
     for ch in ("ha", "inv", "clash"):
         for name in ("u", "a"):
             for conn in (None, {"x": "a", "s": "b"}, {"i": "a", "o": "b"}, {"i": "zz"}, {"nope": "a"}, {"o": "bb.i", "i": "bb.o"}):
@@ -112,6 +115,9 @@ def make_op(op, kids):
         return lambda c: c.set_output(op[1] if isinstance(op[1], str) else list(op[1]), op[2])
     if k == "add_blackbox":
         return lambda c: c.add_blackbox(cg.BlackBox("bbt", ["i"], ["o"]), op[1], dict(op[2]) if op[2] else None)
+    if k == "add_blackbox_dup_pin":
+        # a BlackBox that lists pin `i` both as input and as output: creating the second pin node is rejected
+        return lambda c: c.add_blackbox(cg.BlackBox("bbd", ["i"], ["o", "i"]), op[1], dict(op[2]) if op[2] else None)
     if k == "add_subcircuit":
         return lambda c: c.add_subcircuit(kids[op[1]](), op[2], dict(op[3]) if op[3] else None)
     if k == "fill_blackbox":
@@ -158,7 +164,7 @@ def run(ctx):
                     keep.append(z3.Not(pre_.present(out.ret)) if isinstance(out.ret, str) else z3.BoolVal(False))
                 res.append(("uid-fresh", z3.And(keep), "api:add-uid-overwrites", f"add(uid=True) returned {out.ret!r}: an existing node was overwritten / renamed / rewired"))
             registry = {k: (sorted(b.inputs()), sorted(b.outputs())) for k, b in c.blackboxes.items()}
-            if reg or op[0] in ("add_blackbox", "add_subcircuit", "fill_blackbox"):
+            if reg or op[0] in ("add_blackbox", "add_blackbox_dup_pin", "add_subcircuit", "fill_blackbox"):
                 res.append(("pins", specs.pins_ok(registry, post.present, post.typ, exempt=removed_by_caller), f"api:{op[0]}:registry-pins", f"after {op[0]}{op[1:]} ({out.kind}) a recorded blackbox instance lacks a pin node of the right type (registry {sorted(registry)})"))
             return res
 
